@@ -5,7 +5,13 @@ use indexmap::IndexMap;
 use rooc::{BinOp, UnOp};
 use rooc::model_transformer::Exp;
 
-fn truthy(x: f64) -> bool { x != 0.0 }
+thread_local! { static NOISE: std::cell::Cell<bool> = const { std::cell::Cell::new(false) }; }
+/// true (and cleared) when, since the last call, a truth test or a zero-divisor test was applied to a value that is not zero but
+/// smaller than 1e-9 in magnitude: rounding noise of f64 arithmetic (exact arithmetic would give 0 or something else entirely),
+/// so the 0/1 outcome of that test is not meaningful and a comparison of two spellings of the expression at this point is skipped
+pub fn take_noise() -> bool { NOISE.with(|c| c.replace(false)) }
+fn noisy(x: f64) { if x != 0.0 && x.abs() < 1e-9 { NOISE.with(|c| c.set(true)); } }
+fn truthy(x: f64) -> bool { noisy(x); x != 0.0 }
 fn bn(b: bool) -> f64 { if b { 1.0 } else { 0.0 } }
 
 pub fn eval(e: &Exp, env: &IndexMap<String, f64>) -> Option<f64> {
@@ -35,7 +41,7 @@ pub fn eval(e: &Exp, env: &IndexMap<String, f64>) -> Option<f64> {
             let (l, r) = (eval(a, env)?, eval(b, env)?);
             match op {
                 BinOp::Add => l + r, BinOp::Sub => l - r, BinOp::Mul => l * r,
-                BinOp::Div => { if r == 0.0 { return None; } l / r }
+                BinOp::Div => { noisy(r); if r == 0.0 { return None; } l / r }
                 BinOp::And => bn(truthy(l) && truthy(r)), BinOp::Or => bn(truthy(l) || truthy(r)),
                 BinOp::Xor => bn(truthy(l) != truthy(r)), BinOp::Implies => bn(!truthy(l) || truthy(r)),
                 BinOp::Iff => bn(truthy(l) == truthy(r)),
